@@ -423,6 +423,8 @@ def obligations(tier):
             cpre = cpre + ["kpos in (-1, 1)", "ws <= 2"]
         if ra + rb >= 4:
             cpre = cpre + ["kpos in (-1, 1)", "ws <= 3", "sa0 <= 2 and sa1 <= 2 and sb0 <= 2 and sb1 <= 2"]
+        elif ra + rb == 3 and thorough:
+            cpre = cpre + ["ws <= 5", "sa0 <= 2 and sa1 <= 2 and sb0 <= 3"]
         obs.append(
             Ob(
                 f"family_{ra}_{rb}_str", FP,
